@@ -109,6 +109,11 @@ TRUSTED = [
     "modelling assumption: own team of T >= 1 threads vs. the caller's team); tied to the C++ by the PAR stream "
     "(libgomp, 4 requested threads, nested levels 1/2, OMP_THREAD_LIMIT): bit-for-bit against the serial call, else "
     "against the extracted model of the matrix",
+    "wave 4: Mds_Model_Range.v models a container as a map position -> address into a memory of sample ids (hand-written; "
+    "that begin[p] / *(begin + p) return the p-th denoted sample is the iterator's contract, not modelled further); tied to the "
+    "C++ by the rng stream: 3 iterator types (std::vector / std::deque const_iterator, the harness's strided_iter) x 3 callback "
+    "pairs, each a full instantiation of tapkee::embed; decoy ids are valid samples of the table (a wrong read is silent, not a "
+    "crash); std::deque block size is libstdc++'s (512 bytes: the harness locates the block boundary at run time)",
 ]
 
 
@@ -2050,7 +2055,7 @@ def run(ctx):
     cases += gen_huge(rng, 27 if quick else 108)
     cases += gen_e2e(rng, quick, 96 if quick else 448, 24 if quick else 48)
     cases += gen_repeat(rng, 18 if quick else 72)
-    cases += gen_big_deque(rng, 2 if quick else 8)
+    cases += gen_big_deque(rng, 3 if quick else 8)
     cases += gen_exact_ranges(rng, cases, 1 if quick else 3)
     n, scaled = evaluate_all(ctx, exe, mexe, tab, cases, stats)
     cases += scaled
@@ -2118,7 +2123,18 @@ def run(ctx):
              "randomized, default solver): the outcome must be an exception or a matrix, never an abort, and where every "
              "intermediate stays finite the factor specification is applied; + exact-stream linear kernels with a common "
              "offset of 2^20 / 10^6 against a spread of 8; lattices scaled by non-powers-of-two and permuted; linear "
-             "kernels with more features than samples.",
+             "kernels with more features than samples.  "
+             "WAVE 4 (stream rng): every end-to-end case (dense and randomized) that met the specification is repeated "
+             "through tapkee::with(..).embedRange(begin,end) and the internal matrix routines on the SAME sequence of samples "
+             "held in another container kind (std::vector sub-range, whole std::deque, std::deque sub-range across a block "
+             "boundary, strided adaptor, reversing adaptor; decoy ids everywhere else) with another callback pair (hand-written "
+             "table, tapkee::precomputed_*, tapkee::eigen_* over integer feature points), as ids (unsorted / sorted / identity) "
+             "into a larger table with decoy samples: the 18 (container, callback) pairs cycle; + id sequences with REPEATED "
+             "ids (sorted with as many entries as the table has samples and end points 0 and m-1; unsorted; longer; shorter) "
+             "into Euclidean tables; + whole std::deque ranges with N in 130..133 on integer tables; + a range twin of every "
+             "exact-stream DM / KM case (bit for bit against the Qc model of the denoted table; every fourth with repeated ids) "
+             "and whole-deque exact cases with N = 256.  Judgement: bit-for-bit the plain call on the denoted table, else model "
+             "comparison (1e-11) + extracted factor specification.",
         samples=samples,
         histogram={"generators": hist, "sizes": sizes, "stats": stats},
         trusted_base=TRUSTED,
@@ -2132,7 +2148,9 @@ def run(ctx):
                      "calling context: any thread of an application's OpenMP parallel region may call tapkee::embed on its "
                      "own data set (dense solver; the randomized solver draws from the process-wide std::rand and is not "
                      "reproducible under concurrency, so it is exercised from serial code only)",
-                     "solver and sqrt oracle contracts of DESIGN 1.3 (validated on every replicated call)"],
+                     "solver and sqrt oracle contracts of DESIGN 1.3 (validated on every replicated call)",
+                     "ranges: any random-access range of sample ids (the value_type is IndexType = int in every harness "
+                     "instantiation; other value types are not exercised); callbacks are pure functions of the two samples"],
         extra={"translator_table_sites": None if tab is None else len(tab["branches"]),
                "model_cache_hits": STATS_CACHE["hits"]})
 
